@@ -27,11 +27,17 @@ type FileStorage struct {
 
 const (
 	defaultLockFile = "/tmp/dc4bc_storage_lock"
+
+	// maxLineSize is the maximum size of one message line, for reading as well as for counting lines
+	maxLineSize = 1024 * 1024
 )
 
 func countLines(r io.Reader) uint64 {
 	var count uint64
 	fileScanner := bufio.NewScanner(r)
+	// use the same limit as GetMessages, otherwise a line longer than the default
+	// 64KB stops the count and all the following messages get the same offset
+	fileScanner.Buffer(make([]byte, 0, 64*1024), maxLineSize)
 
 	for fileScanner.Scan() {
 		count++
@@ -114,7 +120,7 @@ func (fs *FileStorage) GetMessages(offset uint64) ([]storage.Message, error) {
 	}
 	scanner := bufio.NewScanner(fs.dataFile)
 	buf := make([]byte, 0, 64*1024)
-	scanner.Buffer(buf, 1024*1024)
+	scanner.Buffer(buf, maxLineSize)
 	for scanner.Scan() {
 		if offset > 0 {
 			offset--
